@@ -97,6 +97,11 @@ def check_interval_view(ctx, A, B, blocks, strand, cs, ce, g, what, cst="+"):
     ctx.eq(what + ":chunk_relative_interval_to_feature", [whole[0], sorted(whole[1]) if whole[0] == "loc" else whole[1]], ["loc", list(range(len(cpos)))])
     back_ = _outcome(B.feature_interval_to_chunk_relative, 0, len(cpos), STRAND["+"])
     ctx.eq(what + ":feature_interval_to_chunk_relative", back_[:2], ["loc", cpos])
+    # the transcript-named wrappers and the block accessor of the chunk view answer the same
+    if hasattr(B, "chunk_relative_interval_to_transcript"):
+        ctx.eq(what + ":chunk_relative_interval_to_transcript", _outcome(B.chunk_relative_interval_to_transcript, min(cpos), max(cpos) + 1, STRAND[rm.compose(strand, cst)]), whole)
+        ctx.eq(what + ":transcript_interval_to_chunk_relative", _outcome(B.transcript_interval_to_chunk_relative, 0, len(cpos), STRAND["+"])[:2], ["loc", cpos])
+    ctx.eq(what + ":relative_blocks", [(b_.start, b_.end) for b_ in B.relative_blocks], [(b_.start, b_.end) for b_ in B.chunk_relative_blocks])
     # (b2) the chunk-relative dictionary form lists the chunk-relative blocks
     try:
         dr = B.to_dict(chromosome_relative_coordinates=False)
@@ -171,6 +176,15 @@ def check_cds_view(ctx, A, B, spec, cs, ce, g, what="cds", cst="+"):
         ctx.fail(what + ":chunk_relative_codons_raise_valueerror", {"exc": repr(e)[:120], "any_inside": any_inside})
         return
     ctx.eq(what + ":chunk_relative_codons", got, inside_codons, extra={"chunk": [cs, ce]})
+    # (the deprecated alias scans the same codons)
+    try:
+        import warnings as _w
+        with _w.catch_warnings():
+            _w.simplefilter("ignore")
+            got_alias = [tuple(up(p) for p in t) for t in codon_triples(mkcds(spec, chunk_parent(g, cs, ce, strand=cst)).scan_codon_locations())]
+        ctx.eq(what + ":chunk_relative_codons", got_alias, inside_codons, extra={"chunk": [cs, ce], "via": "scan_codon_locations"})
+    except (BioCantorException, ValueError) as e:
+        ctx.fail(what + ":chunk_relative_codons_raise", {"exc": repr(e)[:120], "via": "scan_codon_locations"})
     ctx.eq(what + ":num_chunk_relative_codons", B.num_chunk_relative_codons, len(inside_codons))
     # the same questions in the other order on a fresh object (chunk-relative view first, chromosome-level answers after it)
     try:
